@@ -116,10 +116,12 @@ func isKind(m *msg, kind uint8, h types.Height, r types.Round) bool {
 //
 // "polka seen by a subset" twice, then a proposal whose valid round is older
 // than the victim's lock:
-//   r0  correct proposer offers Y; only `seer` sees the polka (locks Y@0);
-//   r1  proposer offers fresh X; only `victim` sees the polka (locks X@1);
-//       the victim then learns the round-0 polka for Y;
-//   r2  (Y, vr=0) is proposed (legitimately by seer, or by a byzantine proposer).
+//
+//	r0  correct proposer offers Y; only `seer` sees the polka (locks Y@0);
+//	r1  proposer offers fresh X; only `victim` sees the polka (locks X@1);
+//	    the victim then learns the round-0 polka for Y;
+//	r2  (Y, vr=0) is proposed (legitimately by seer, or by a byzantine proposer).
+//
 // Line 29 demands lockedRound(1) <= vr(0) or lockedValue = Y: the victim must prevote nil.
 func tplStalePolka(s *sim, ha types.Height) (hit bool) {
 	c := s.c
